@@ -91,8 +91,10 @@ func runC18(c *Ctx) {
 		loads := findInstrs(fn, loadPred(`e\.funcsOnce`))
 		clears := findInstrs(fn, storeValPred(`e\.funcsOnce`, `nil`))
 		c.Ob("C18-D4", "sio.handlerStore.getAll/reads-once", fn.Pos(), len(loads) > 0, "getAll never reads funcsOnce: once-handlers are never returned")
-		skip, trail := CanReachExitAvoiding(fn, nil, storeValPred(`e\.funcsOnce`, `nil`))
-		c.Ob("C18-D4", "sio.handlerStore.getAll/clears-once", fn.Pos(), !skip && len(clears) > 0, "a path through getAll returns without `funcsOnce = nil` (a Once handler would fire again): "+trailString(p, trail))
+		nonEmpty := []Assume{{`\(len\(e\.funcsOnce\) != 0\)`, true}, {`\(len\(e\.funcsOnce\) == 0\)`, false}, {`\(len\(e\.funcsOnce\) > 0\)`, true}, {`\(e\.funcsOnce != nil\)`, true}, {`\(e\.funcsOnce == nil\)`, false}}
+		skip, trail := PrunedCanReach(fn, nil, nonEmpty, nil, storeValPred(`e\.funcsOnce`, `nil`))
+		c.Ob("C18-D4", "sio.handlerStore.getAll/clears-once", fn.Pos(), !skip && len(clears) > 0, "with a non-empty once-list a path through getAll returns without `funcsOnce = nil` (a Once handler would fire again): "+trailString(p, trail))
+		freshResult(c, "C18-D4", "sio.handlerStore.getAll", fn)
 		for _, ld := range loads {
 			for _, cl := range clears {
 				c.Ob("C18-D4", "sio.handlerStore.getAll/same-region", cl.Pos(), SameRegion(li, ld, cl, "e.mu"), "reading and clearing funcsOnce are not in one critical section of e.mu: two concurrent occurrences could both take the same Once handler")
@@ -137,8 +139,10 @@ func runC18(c *Ctx) {
 		looks := findInstrs(fn, isLookup)
 		dels := findInstrs(fn, isDelete("e.eventsOnce"))
 		c.Ob("C18-D4", "sio.eventHandlerStore.getAll/reads-once", fn.Pos(), len(looks) > 0, "getAll never reads eventsOnce[eventName]")
-		skip, trail := CanReachExitAvoiding(fn, nil, isDelete("e.eventsOnce"))
-		c.Ob("C18-D4", "sio.eventHandlerStore.getAll/clears-once", fn.Pos(), !skip && len(dels) > 0, "a path through getAll returns without delete(e.eventsOnce, eventName): "+trailString(p, trail))
+		nonEmpty := []Assume{{`e\.eventsOnce\[eventName\]#1`, true}, {`\(len\(e\.eventsOnce\[eventName\](#0)?\) != 0\)`, true}, {`\(len\(e\.eventsOnce\[eventName\](#0)?\) == 0\)`, false}, {`\(len\(e\.eventsOnce\[eventName\](#0)?\) > 0\)`, true}}
+		skip, trail := PrunedCanReach(fn, nil, nonEmpty, nil, isDelete("e.eventsOnce"))
+		c.Ob("C18-D4", "sio.eventHandlerStore.getAll/clears-once", fn.Pos(), !skip && len(dels) > 0, "with once-handlers present a path through getAll returns without delete(e.eventsOnce, eventName): "+trailString(p, trail))
+		freshResult(c, "C18-D4", "sio.eventHandlerStore.getAll", fn)
 		for _, ld := range looks {
 			for _, d := range dels {
 				c.Ob("C18-D4", "sio.eventHandlerStore.getAll/same-region", d.Pos(), SameRegion(li, ld, d, "e.mu"), "lookup and delete of eventsOnce[eventName] are not in one critical section of e.mu")
@@ -156,7 +160,7 @@ func runC18(c *Ctx) {
 		for _, m := range []string{"e.events[eventName]", "e.eventsOnce[eventName]"} {
 			found := false
 			for _, cs := range CallsTo(Calls(fn), "append") {
-				if len(cs.Common().Args) == 2 && Term(cs.Common().Args[1]) == m {
+				if len(cs.Common().Args) == 2 && (Term(cs.Common().Args[1]) == m || Term(cs.Common().Args[1]) == m+"#0") {
 					found = true
 				}
 			}
@@ -392,4 +396,59 @@ func sameSliceRoot(a, b ssa.Value) bool {
 		}
 	}
 	return root(a) == root(b)
+}
+
+// freshResult: the slice a store's getAll returns must be freshly allocated
+// (make/append onto a make), never the store's own backing array: the caller
+// iterates it outside the lock while Off may compact the internal slice.
+func freshResult(c *Ctx, rule, name string, fn *ssa.Function) {
+	for _, b := range fn.Blocks {
+		ret, ok := b.Instrs[len(b.Instrs)-1].(*ssa.Return)
+		if !ok || len(ret.Results) != 1 || (len(b.Preds) == 0 && b.Index != 0) {
+			continue
+		}
+		bad := ""
+		seen := map[ssa.Value]bool{}
+		var walk func(v ssa.Value)
+		walk = func(v ssa.Value) {
+			if seen[v] || bad != "" {
+				return
+			}
+			seen[v] = true
+			switch x := v.(type) {
+			case *ssa.MakeSlice:
+			case *ssa.Const:
+			case *ssa.Phi:
+				for _, e := range x.Edges {
+					walk(e)
+				}
+			case *ssa.Slice:
+				walk(x.X)
+			case *ssa.Call:
+				if bi, isB := x.Call.Value.(*ssa.Builtin); isB && bi.Name() == "append" {
+					walk(x.Call.Args[0])
+					return
+				}
+				if cn := calleeName(&x.Call); strings.HasPrefix(cn, "slices.Clone") {
+					return
+				}
+				bad = Term(x)
+			case *ssa.UnOp:
+				// load of a named result variable: follow its stores
+				if al, isAl := x.X.(*ssa.Alloc); isAl {
+					for _, r := range *al.Referrers() {
+						if st, isSt := r.(*ssa.Store); isSt && st.Addr == al {
+							walk(st.Val)
+						}
+					}
+					return
+				}
+				bad = Term(x)
+			default:
+				bad = Term(v)
+			}
+		}
+		walk(ret.Results[0])
+		c.Ob(rule, name+"/fresh-result", ret.Pos(), bad == "", "getAll returns "+bad+", the store's own storage, instead of a fresh copy: a handler that calls Off during dispatch compacts the slice being iterated (handlers skipped, nil entries)")
+	}
 }
